@@ -538,7 +538,7 @@ func concurrent(h *hrun, seed int64) {
 		atomic.StoreInt32(&changed, 1)
 	}()
 	r.Count("password_verifications_bcrypt_estimate", 1)
-	nAuth := 4 + g.Intn(3)
+	nAuth := 6
 	obs := make([]authObs, nAuth)
 	// the authentications are started spread over roughly one password
 	// verification time (workload shaping only; the verdict uses the
@@ -650,7 +650,7 @@ func runHistories(root string) {
 			todo = append(todo, j)
 		}
 	}
-	workers := runtime.NumCPU() * 3 / 4
+	workers := runtime.NumCPU()
 	if workers > len(todo) {
 		workers = len(todo)
 	}
